@@ -448,6 +448,17 @@ func (m *infixModel) checkBinaryResult(t *opTab, label string, p *pwPath, v ssa.
 	if ls != "l" || rs != "r" {
 		return "operands must be (left, right) in parameter order"
 	}
+	// ... computed in the operands' own type: float64(l) / float64(r) in the integer table is another operation
+	// (7 / 2 is 3 on integers)
+	if t.kind == "int" || t.kind == "float" {
+		want := types.Int
+		if t.kind == "float" {
+			want = types.Float64
+		}
+		if !isBasicKind(be.X.Type(), want) || !isBasicKind(be.Y.Type(), want) {
+			return "the operation is not carried out on the operands as they are: they are converted to another type first, which changes what the operator computes (integer division truncates)"
+		}
+	}
 	if label == "/" && (t.kind == "int" || t.kind == "float") {
 		// the path must have decided that the divisor is not zero
 		guard := false
